@@ -17,6 +17,7 @@ from datetime import datetime, timedelta, timezone
 
 sys.path.insert(0, os.path.dirname(os.path.abspath(__file__)))
 from lib import Check, REPO, zlit, blit, listlit   # noqa: E402
+import gen_state                                    # noqa: E402  (tools/: translator tie for the mutators / getters)
 
 import logging                                      # noqa: E402
 logging.disable(logging.CRITICAL)
@@ -421,6 +422,8 @@ CORPUS = [
 def main():
     ck = Check('C16')
     ck.build_theories(['theories/Props/C16.vo', 'theories/Corr/StateK.vo'])
+    rep = gen_state.main(REPO, os.path.join(ck.rundir, 'StateGen.v'))     # mutators, getters, copy() regenerated from /repo ...
+    ck.gen('StateGen.v', rep, 'StateGenEq.v')                              # ... equal StateM.step / read / copy for all arguments
     ck.props('Props/C16.v')
     rng = ck.rng
     thorough = ck.tier == 'thorough'
